@@ -149,6 +149,8 @@ func Name(name string, n uint64, cmp uint64) string {
 
 type AssumeFailed struct{ Site string }
 
+type stopReplay struct{}
+
 func Assume(c bool) {
 	if !c {
 		_, f, l, _ := runtime.Caller(1)
@@ -159,7 +161,15 @@ func Assume(c bool) {
 func Assert(c bool, label string) {
 	if strings.HasPrefix(label, "mon:") {
 		// obligations over the engine's event monitor (lock / journal / allocator events) have no native
-		// observable: Events() is empty here
+		// observable: Events() is empty here. When the replayed counterexample is a violation of exactly
+		// this obligation, the recorded trace ends here: the native run has followed the path up to the
+		// violation, and running on would leave the recorded choices.
+		mu.Lock()
+		stop := rp != nil && rp.Kind == "assert" && rp.Label == label
+		mu.Unlock()
+		if stop {
+			panic(stopReplay{})
+		}
 		return
 	}
 	if !c {
@@ -407,6 +417,18 @@ func runOne(fns map[string]func()) string {
 	go func() {
 		defer func() {
 			if r := recover(); r != nil {
+				if _, ok := r.(stopReplay); ok {
+					mu.Lock()
+					fl := strings.Join(Failed, ",")
+					nf := len(Failed)
+					mu.Unlock()
+					if nf > 0 {
+						done <- "kind=assert detail=" + fl
+					} else {
+						done <- "kind=ok detail=reached the monitor obligation"
+					}
+					return
+				}
 				if af, ok := r.(AssumeFailed); ok {
 					mu.Lock()
 					nf := len(Failed)
